@@ -125,7 +125,8 @@ static void mutex_wake()
 // two wake-ups with different restart states for the same blocked task: notify_one ("signaled") and
 // thread::interrupt ("abort").  Whatever their order relative to the worker that picks the task up,
 // the task must run again (it returns from wait or leaves it with the interruption exception).
-template <int INTERRUPT_EXTERNAL>
+// NOTIFY=0: thread::interrupt (the non-retrying form of set_thread_state) is the only wake-up
+template <int INTERRUPT_EXTERNAL, int NOTIFY = 1>
 static void two_wakers()
 {
     static St s;
@@ -155,7 +156,7 @@ static void two_wakers()
         t_made = 1;
         // waker A: notify once the waiter is registered
         int guard = 0, woken = 0;
-        while (!woken && !s.resumed && ++guard < 300)
+        while (NOTIFY && !woken && !s.resumed && ++guard < 300)
         {
             {
                 std::unique_lock<spin_t> l(mtx);
@@ -163,7 +164,7 @@ static void two_wakers()
             }
             pika::this_thread::yield();
         }
-        PMC_ASSERT(woken || s.resumed, "harness", "waker never saw the waiter registered");
+        PMC_ASSERT(!NOTIFY || woken || s.resumed, "harness", "waker never saw the waiter registered");
         t->join();
         joined = 1;
         ++s.finished;
@@ -247,6 +248,8 @@ int main(int argc, char** argv)
         {"timed_wait_notified", timed_wait_wake<0>, 1, 2, 0.15, 0.1, 1, focus, sites, "src"},
         {"two_wakers_signal_abort", two_wakers<0>, 2, 3, 0.2, 0.2, 1, focus, sites, "src"},
         {"two_wakers_signal_abort_ext", two_wakers<1>, 2, 3, 0.15, 0.15, 1, focus, sites, "src"},
+        {"interrupt_only", two_wakers<0, 0>, 2, 3, 0.1, 0.1, 1, focus, sites, "src"},
+        {"interrupt_only_ext", two_wakers<1, 0>, 2, 3, 0.1, 0.1, 1, focus, sites, "src"},
     };
     static const char* assumptions[] = {"sequentially consistent interleavings only", "2 worker threads", "fairness: a thread that spins (same failed operation, or 4000 atomic operations without a switch) is descheduled, i.e. the helper-task retry chain is cut by weak fairness"};
     pmc_config cfg{};
